@@ -103,6 +103,11 @@ def gen_from_to(rng, i):
              3: ([0.0, 1.0, 0.0], [0.0, -2.0, 0.0]), 4: ([1.0, 2.0, 3.0], [-1.0, -2.0, -3.0]), 5: ([3.0, 0.0, 4.0], [-3.0, 0.0, -4.0])}
     if i in fixed:
         return fixed[i][0], fixed[i][1], "antiparallel-exact"
+    # antiparallel up to rounding, rounding residue collinear with the vectors (finding C20:from_to-antiparallel-collinear-residue)
+    near = {6: ([1.0, 1.0, 1.0], [-3.0, -3.0, -3.0]), 7: ([1.0, 1.0, 0.0], [-3.0, -3.0, 0.0]), 8: ([-1.0, -1.0, -1.0], [75000.0, 75000.0, 75000.0]),
+            9: ([1.0, -1.0, 1.0], [-0.1, 0.1, -0.1])}
+    if i in near:
+        return near[i][0], near[i][1], "antiparallel-near"
     k = i % 10
     if k == 0:      # exactly antiparallel, generic direction (F7 class)
         f = rvec(rng)
@@ -347,9 +352,27 @@ def rotations(c, rebound, exe):
     nft = 30000 if c.thorough else 1000
     variant_votes = {"asfound": 0, "fixed": 0, "both": 0, "neither": 0}
     ft_cases = []
-    for i in range(nft):
+    FTG = pair_group("from_to", dict(kclass=list(range(10)), fscale=["1", "2^-20", "2^20", "3e5"], tscale=["1", "2^-20", "2^20", "3e5"],
+                                     entry=["C", "Rotation(fromv,tov)", "Rotation.from_to"]), lambda f, a, g, b: None)
+    ftarray = FTG.array(rng)
+    SC = {"1": 1.0, "2^-20": 2.0 ** -20, "2^20": 2.0 ** 20, "3e5": 3e5}
+    for i in range(nft + len(ftarray)):
         try:
-            f, t, cls = gen_from_to(rng, i)
+            if i < nft:
+                f, t, cls = gen_from_to(rng, i)
+            else:
+                fsp = ftarray[i - nft]
+                f, t, cls = gen_from_to(rng, 10 * (i + 1) + fsp["kclass"])
+                f = [x * SC[fsp["fscale"]] for x in f]; t = [x * SC[fsp["tscale"]] for x in t]
+                if "3e5" in (fsp["fscale"], fsp["tscale"]) and cls == "antiparallel-exact":
+                    cls = "antiparallel-near"      # a non-power-of-two scale may break the exact antiparallelism of the normalised vectors
+                FTG.register(fsp)
+                if fsp["entry"] != "C":
+                    rpy = rebound.Rotation(fromv=f, tov=t) if fsp["entry"] == "Rotation(fromv,tov)" else rebound.Rotation.from_to(f, t)
+                    qc_ = F["rotation_init_from_to"](V(*f), V(*t))
+                    ep("Rotation.__init__(fromv,tov)", "Rotation.from_to")
+                    if [d2h(x) for x in ql(rpy)] != [d2h(x) for x in ql(qc_)]:
+                        fails.append(("py-from_to", "rebound.%s differs from reb_rotation_init_from_to" % fsp["entry"], dict(fromv=f, tov=t)))
             if not all(1e-150 < math.sqrt(sum(x * x for x in v_)) < 1e150 for v_ in (f, t)):
                 cls = "extreme-scale"    # |v|^2 under/overflows: the normalisation itself is inaccurate, results are ill-conditioned
             q = F["rotation_init_from_to"](V(*f), V(*t))
@@ -362,13 +385,18 @@ def rotations(c, rebound, exe):
             if cls == "antiparallel-exact":
                 dim("rotation: exactly antiparallel from_to")
             # conditioning of the construction: the bisector from+to cancels when the vectors are nearly opposite
-            _lf, _lt = math.sqrt(float(fdot(_ff, _ff))) or 1.0, math.sqrt(float(fdot(_tt, _tt))) or 1.0
-            _hs = math.sqrt(sum((a / _lf + b / _lt) ** 2 for a, b in zip(f, t)))
+            try:
+                _lf, _lt = math.sqrt(float(fdot(_ff, _ff))) or 1.0, math.sqrt(float(fdot(_tt, _tt))) or 1.0
+                _hs = math.sqrt(sum((a / _lf + b / _lt) ** 2 for a, b in zip(f, t)))
+            except OverflowError:
+                _hs = 2.0
             tolf[len(lines) - 1] = tolf[len(lines) - 2] = max(1.0, 2.0 / _hs) if _hs > 1e-9 else 1.0   # exactly opposite: own branch, well conditioned
             hist[cls] = hist.get(cls, 0) + 1
             c.count(("from_to", cls, i % 40))
             # ---- search: unit and maps from -> to (oracle: exact rational q v q^-1 on the returned doubles,
             #      directions normalised with math.fsum / sqrt independent of the C normalisation)
+            if cls == "extreme-scale":
+                continue
             lf = math.sqrt(float(sum(Fr(x) ** 2 for x in f)))
             lt_ = math.sqrt(float(sum(Fr(x) ** 2 for x in t)))
             if not (lf > 1e-150 and lt_ > 1e-150 and lf < 1e150 and lt_ < 1e150):
@@ -386,6 +414,17 @@ def rotations(c, rebound, exe):
                 m2 = min((x / lf) ** 2 for x in f)
                 sig_ok = all(x == x for x in qv) and qv[3] == 0.0 and abs(nq - (1 - m2)) <= 1e-12
                 key = "F7:from_to-antiparallel" if sig_ok else "from_to:antiparallel-unexpected"
+                # second known defect on this input class: the normalised vectors are opposite only up to rounding and the
+                # rounding residue from+to is collinear with them (e.g. (1,1,1) -> (-3,-3,-3)): the test for the antiparallel branch
+                # (half exactly zero) misses it and the two-stage construction degenerates to +-identity or NaN
+                fnn = [x * (1.0 / math.sqrt(sum(y * y for y in f))) for x in f]
+                tnn = [x * (1.0 / math.sqrt(sum(y * y for y in t))) for x in t]
+                resid = [a + b for a, b in zip(fnn, tnn)]
+                crs = [fnn[1] * resid[2] - fnn[2] * resid[1], fnn[2] * resid[0] - fnn[0] * resid[2], fnn[0] * resid[1] - fnn[1] * resid[0]]
+                collinear = any(resid) and max(abs(x) for x in crs) <= 1e-17 * max(abs(x) for x in resid)
+                degenerate_result = (not all(x == x for x in qv)) or (max(abs(x) for x in qv[:3]) <= 1e-7 and abs(abs(qv[3]) - 1) <= 1e-7)
+                if not sig_ok and collinear and degenerate_result:
+                    key = "C20:from_to-antiparallel-collinear-residue"
             bad = None
             if not abs(nq - 1) <= 1e-13:
                 bad = "from_to rotation is not unit: |q|^2 = %r" % nq
@@ -410,6 +449,7 @@ def rotations(c, rebound, exe):
             fails.append(("nonfinite:from_to", "the real code returned a non-finite value where the oracle expects a number (%r)" % (ex,),
                           {k_: repr(_lc[k_])[:400] for k_ in ['f', 't', 'cls'] if k_ in _lc}))
 
+    NAG = pair_group("to_new_axes", dict(nz=["+z", "-z", "x-axis", "generic-unit", "generic-nonunit"], nx=["perp", "generic", "minus-x", "tiny-perp"]), lambda f, a, g, b: None)
     # ---------------- angle-axis, orbit, new axes, slerp
     nc = 10000 if c.thorough else 500
     for i in range(nc):
@@ -465,6 +505,18 @@ def rotations(c, rebound, exe):
                 nz = [0.0, 0.0, -1.0]; nx = [-1.0, 0.0, 0.0]
             if i == 0:
                 nz = [0.0, 0.0, 2.0]; nx = [1.0, 0.0, 1.0]     # witness of c20_to_new_axes_F18_negation
+            if 1 <= i <= 20:
+                # full factorial newz kind x newx kind
+                zk = ["+z", "-z", "x-axis", "generic-unit", "generic-nonunit"][(i - 1) // 4]
+                xk = ["perp", "generic", "minus-x", "tiny-perp"][(i - 1) % 4]
+                g_ = rvec(rng, 1.0); lg_ = math.sqrt(sum(x * x for x in g_))
+                nz = {"+z": [0.0, 0.0, 1.0], "-z": [0.0, 0.0, -1.0], "x-axis": [1.0, 0.0, 0.0], "generic-unit": [x / lg_ for x in g_],
+                      "generic-nonunit": [x * 7.3 for x in g_]}[zk]
+                h_ = rvec(rng, 1.0)
+                dz_ = sum(a * b for a, b in zip(h_, nz)) / sum(x * x for x in nz)
+                pp_ = [a - dz_ * b for a, b in zip(h_, nz)]
+                nx = {"perp": pp_, "generic": h_, "minus-x": [-1.0, 0.0, 0.0], "tiny-perp": [b + 1e-6 * a for a, b in zip(pp_, nz)]}[xk]
+                NAG.register(dict(nz=zk, nx=xk))
             q = F["rotation_init_to_new_axes"](V(*nz), V(*nx))
             # conditioning of the orthogonalisation newx - (newx.z)z: rounding differences are amplified by |newx|/|newx_perp|
             _lz = math.sqrt(sum(x * x for x in nz)) or 1.0
@@ -697,19 +749,25 @@ def rotations(c, rebound, exe):
     c.cov["slerp_shortcut_branch"] = slerp_short
     # simulation / particle rotation = the vector rotation on every particle (positions and velocities),
     # energy and |L| preserved (oracle: exact rational kinetic energy and pair distances)
-    nsim = 80 if c.thorough else 16
+    RG = pair_group("sim.rotate", dict(vmode=[0, 1, 2, 3], roles=["all", "tp0", "tp1"], qkind=["generic", "axis", "small", "nearpi", "identity"],
+                                       N=[2, 3, 6], entry=["Simulation.rotate", "Rotation*Simulation", "Particle.rotate each"]), lambda f, a, g, b: None)
+    rarray = RG.array(rng)
+    nsim = len(rarray) * (4 if c.thorough else 1)
     sim_rot_var_cases = {}
     for i in range(nsim):
+        rspec = rarray[i % len(rarray)]
         sim = rebound.Simulation()
-        N = rng.randint(2, 6)
+        N = rspec["N"]
         for k in range(N):
             sim.add(m=rng.loguniform(1e-3, 1), x=rng.normal(), y=rng.normal(), z=rng.normal(), vx=rng.normal(), vy=rng.normal(), vz=rng.normal())
         # variational particles with NON-ZERO data: reb_simulation_irotate must rotate all N particles, a variation
         # being the derivative of a vector transforms with the same (linear) rotation (theorem c20_rotate_variations)
-        vmode = i % 4
-        if N >= 3 and i % 2 == 1:
+        vmode = rspec["vmode"]
+        if rspec["roles"] != "all":
             sim.N_active = rng.randint(1, N - 1)      # test particles are rotated like everything else
-            sim.testparticle_type = i % 4 // 2
+            sim.testparticle_type = 0 if rspec["roles"] == "tp0" else 1
+            if rng.chance(0.5):
+                sim.particles[N - 1].m = 0.0
             dim("roles: N_active < N / test particles (frame ops)")
         v1 = None
         if vmode in (1, 2):
@@ -729,8 +787,26 @@ def rotations(c, rebound, exe):
         o0 = sim.particles[1].orbit(primary=sim.particles[0])
         o0v = (o0.a, o0.e, vl(o0.hvec), vl(o0.evec))
         qv = runit(rng)
+        if rspec["qkind"] == "axis":
+            qv = [0.0, 0.0, 0.0, 0.0]; qv[rng.randint(0, 2)] = rng.choice([1.0, -1.0])
+        elif rspec["qkind"] == "identity":
+            qv = [0.0, 0.0, 0.0, rng.choice([1.0, -1.0])]
+        elif rspec["qkind"] in ("small", "nearpi"):
+            qv = [1e-6 * rng.normal(), 1e-6 * rng.normal(), 1e-6 * rng.normal(), 1.0] if rspec["qkind"] == "small" else [rng.normal(), rng.normal(), rng.normal(), 1e-9 * rng.normal()]
+            nn_ = math.sqrt(math.fsum(x * x for x in qv)); qv = [x / nn_ for x in qv]
         r = mkq(qv)
-        sim.rotate(r)
+        if rspec["entry"] == "Simulation.rotate":
+            sim.rotate(r); ep("Simulation.rotate", "reb_simulation_irotate")
+        elif rspec["entry"] == "Rotation*Simulation":
+            s_new = r * sim                                  # Rotation.__mul__(Simulation): copy, rotate
+            if [[pp.x, pp.vx] for pp in sim.particles] != [[row[1][0], row[2][0]] for row in pre]:
+                fails.append(("py-rot-mul-sim", "Rotation * Simulation modified its operand", dict(q=qv)))
+            sim = s_new; ep("Rotation.__mul__(Simulation)", "reb_simulation_irotate")
+        else:
+            for pp in sim.particles:                         # Particle.rotate -> reb_particle_irotate, on real and variational particles
+                pp.rotate(r)
+            ep("Particle.rotate", "reb_particle_irotate")
+        RG.register(rspec)
         E1 = sim.energy(); L1 = sim.angular_momentum()
         # orbital elements of the rotated system (reb_orbit_from_particle on the real code): h and the eccentricity
         # vector rotate as vectors (theorem c20_rotate_orbit_vectors); e and the inclination from the rotated z axis are unchanged
@@ -802,6 +878,111 @@ def rotations(c, rebound, exe):
         if not (abs(E1 - E0) <= 1e-12 * abs(E0) + 1e-13 and abs(l1 - l0) <= 1e-12 * l0 and dmax <= 1e-13 and eL <= 1e-12):
             fails.append(("sim-rotate", "Simulation.rotate changes energy / |L| / pair distances", dict(q=qv, pre=pre, dE=E1 - E0, dL=l1 - l0, dd=dmax)))
         c.count(("simrotate", N, i % 3))
+    # ---------------- remaining public entry points (smoke + oracle): to_orbital, to_mat4df, Rotation.normalize/__eq__/__repr__,
+    #                  Vec3d.rotate / Vec3d.normalize, reb_particle_com_of_pair, reb_simulation_com_range
+    for n_ in sig:
+        ep(n_)
+    ep("reb_vec3d_irotate", "Rotation.__init__", "Rotation.from_to", "Rotation.orbit", "Rotation.to_new_axes", "Rotation.inverse", "Rotation.__mul__")
+    clib.reb_rotation_to_orbital.restype = None
+    clib.reb_rotation_to_orbital.argtypes = [Q, ctypes.POINTER(D), ctypes.POINTER(D), ctypes.POINTER(D)]
+
+    class Mat4(ctypes.Structure):
+        _fields_ = [("m", ctypes.c_float * 16)]
+    clib.reb_rotation_to_mat4df.restype = Mat4
+    clib.reb_rotation_to_mat4df.argtypes = [Q]
+    TOG = pair_group("to_orbital", dict(inc=["0", "pi", "-pi", "2pi", "near0", "nearpi", "generic", "pi/2"], Omega=["0", "generic", "negative", ">2pi"],
+                                        omega=["0", "generic", "negative", ">2pi"]), lambda f, a, g, b: None)
+
+    def angle(kind):
+        return {"0": 0.0, "pi": math.pi, "-pi": -math.pi, "2pi": 2 * math.pi, "near0": 10 ** -rng.uniform(4, 10), "nearpi": math.pi - 10 ** -rng.uniform(4, 10),
+                "pi/2": math.pi / 2, "generic": rng.uniform(0.1, 3.0), "negative": -rng.uniform(0.1, 3.0), ">2pi": rng.uniform(6.4, 12.0)}[kind]
+
+    def rotdist(a_, b_):
+        return min(max(abs(x - y) for x, y in zip(a_, b_)), max(abs(x + y) for x, y in zip(a_, b_)))
+    to_orb = {"cases": 0, "degenerate_failures": 0, "nan": 0}
+    for tspec in TOG.array(rng) * (5 if c.thorough else 1):
+        Om, inc, om = angle(tspec["Omega"]), angle(tspec["inc"]), angle(tspec["omega"])
+        q = F["rotation_init_orbit"](Om, inc, om)
+        o1, o2, o3 = D(), D(), D()
+        clib.reb_rotation_to_orbital(q, ctypes.byref(o1), ctypes.byref(o2), ctypes.byref(o3))
+        pyq = rebound.Rotation(ix=q.ix, iy=q.iy, iz=q.iz, r=q.r)
+        back = pyq.orbital()
+        ep("reb_rotation_to_orbital", "Rotation.orbital")
+        TOG.register(tspec)
+        to_orb["cases"] += 1
+        if [d2h(x) for x in back] != [d2h(o1.value), d2h(o2.value), d2h(o3.value)]:
+            c.corr_break("Rotation.orbital() differs from reb_rotation_to_orbital", dict(Omega=Om, inc=inc, omega=om))
+        vals = [o1.value, o2.value, o3.value]
+        # the angles returned must reproduce the rotation (as a rotation: q and -q are the same)
+        if any(x != x for x in vals):
+            e = float("inf"); to_orb["nan"] += 1
+        else:
+            e = rotdist(ql(q), ql(F["rotation_init_orbit"](*vals)))
+        degenerate = abs(math.sin(inc)) < 1e-3
+        if not degenerate:
+            note("to_orbital_roundtrip_generic", e)
+        if not e <= (1e-9 if not degenerate else 1e-6):
+            if degenerate:
+                to_orb["degenerate_failures"] += 1
+            fails.append(("C20:to_orbital-degenerate-inclination" if degenerate else "to-orbital",
+                          "Rotation.orbit(*Rotation.orbital()) is a different rotation (distance %.3g%s) for Omega=%.17g inc=%.17g omega=%.17g" % (e, ", NaN angles" if e == float("inf") else "", Om, inc, om),
+                          dict(Omega=Om, inc=inc, omega=om, q=ql(q), angles=vals)))
+        # float display matrix = the rotation matrix of q
+        mm = clib.reb_rotation_to_mat4df(q)
+        ep("reb_rotation_to_mat4df")
+        Mq = frot_matrix(ql(q))
+        em = max(abs(mm.m[4 * a_ + b_] - float(Mq[a_][b_])) for a_ in range(3) for b_ in range(3))
+        note("to_mat4df_vs_rotation_matrix", em)
+        if not em <= 1e-6 or mm.m[15] != 1.0 or any(mm.m[k_] != 0.0 for k_ in (3, 7, 11, 12, 13, 14)):
+            fails.append(("to-mat4df", "reb_rotation_to_mat4df is not the rotation matrix of the quaternion", dict(q=ql(q), m=list(mm.m))))
+    c.cov["to_orbital"] = to_orb
+    # Rotation.normalize / __eq__ / __repr__
+    for _k in range(20):
+        qq = [rng.normal() * 3 for _ in range(4)]
+        rq = mkq(qq)
+        rn = rq.normalize()
+        ep("Rotation.normalize", "Rotation.__eq__", "Rotation.__repr__")
+        if [d2h(x) for x in ql(rn)] != [d2h(x) for x in ql(F["rotation_normalize"](rq))] or not (rn == F["rotation_normalize"](rq)) or (rn == rq) \
+                or abs(float(sum(Fr(x) ** 2 for x in ql(rn))) - 1) > 1e-14 or "ix=" not in repr(rn):
+            fails.append(("py-rotation-misc", "Rotation.normalize / __eq__ / __repr__ misbehave", dict(q=qq)))
+    # Vec3d.rotate / Vec3d.normalize: public methods that reach reb_vec3d_irotate / reb_vec3d_normalize
+    for _k in range(5):
+        v0 = rvec(rng, 1.0)
+        qv_ = runit(rng)
+        for meth in ("rotate", "normalize"):
+            ep("Vec3d." + meth)
+            try:
+                vv = rebound.Vec3d(v0)
+                res_ = vv.rotate(mkq(qv_)) if meth == "rotate" else vv.normalize()
+                want_ = vl(F["vec3d_rotate"](V(*v0), mkq(qv_))) if meth == "rotate" else vl(F["vec3d_normalize"](V(*v0)))
+                if [d2h(x) for x in [res_.x, res_.y, res_.z]] != [d2h(x) for x in want_]:
+                    fails.append(("py-vec3d-" + meth, "Vec3d.%s differs from the C routine" % meth, dict(v=v0, q=qv_)))
+            except (NameError, AttributeError) as ex:
+                fails.append(("C20:Vec3d-rotate-normalize", "rebound.Vec3d.%s raises %s: %s" % (meth, type(ex).__name__, ex), dict(v=v0, q=qv_, method=meth)))
+    # reb_particle_com_of_pair / reb_simulation_com_range
+    clib.reb_particle_com_of_pair.restype = rebound.Particle
+    clib.reb_simulation_com_range.restype = rebound.Particle
+    for _k in range(30):
+        p1 = rebound.Particle(m=rng.choice([0.0, rng.loguniform(1e-3, 10)]), x=rng.normal(), y=rng.normal(), z=rng.normal(), vx=rng.normal(), vy=rng.normal(), vz=rng.normal())
+        p2 = rebound.Particle(m=rng.choice([0.0, rng.loguniform(1e-3, 10)]), x=rng.normal(), y=rng.normal(), z=rng.normal(), vx=rng.normal(), vy=rng.normal(), vz=rng.normal())
+        cp = clib.reb_particle_com_of_pair(p1, p2)
+        ep("reb_particle_com_of_pair")
+        mt_ = Fr(p1.m) + Fr(p2.m)
+        for f_ in COMPS6:
+            want_ = (Fr(getattr(p1, f_)) * Fr(p1.m) + Fr(getattr(p2, f_)) * Fr(p2.m)) / mt_ if mt_ > 0 else Fr(0)
+            if abs(float(Fr(getattr(cp, f_)) - want_)) > 1e-15 * max(1.0, abs(float(want_))) * 4 or cp.m != p1.m + p2.m:
+                fails.append(("com-of-pair", "reb_particle_com_of_pair is not the mass-weighted mean", dict(m=[p1.m, p2.m], f=f_)))
+                break
+    simr = rebound.Simulation()
+    for _k in range(5):
+        simr.add(m=rng.uniform(0.1, 1), x=rng.normal(), vy=rng.normal())
+    simr.add_variation()
+    cr_ = clib.reb_simulation_com_range(ctypes.byref(simr), ctypes.c_int(0), ctypes.c_int(5))
+    clib.reb_simulation_com.restype = rebound.Particle
+    cc_ = clib.reb_simulation_com(ctypes.byref(simr))
+    ep("reb_simulation_com_range", "reb_simulation_com")
+    if [d2h(getattr(cr_, f_)) for f_ in ["m"] + COMPS6] != [d2h(getattr(cc_, f_)) for f_ in ["m"] + COMPS6]:
+        fails.append(("com-range", "reb_simulation_com_range(0, N_real) differs from reb_simulation_com", {}))
     c.cov["sim_rotate_cases_with_variational_particles_by_mode"] = {"first order": sim_rot_var_cases.get(1, 0), "first+second order+test particle": sim_rot_var_cases.get(2, 0), "megno": sim_rot_var_cases.get(3, 0)}
     # rotation commutes with the evolution, also for the variational particles (and MEGNO is orientation independent):
     # rotate-then-integrate = integrate-then-rotate
@@ -901,32 +1082,44 @@ def frame(c, rebound, exe):
     def add(line, exp, tag):
         lines.append(line); expect.append(" ".join(d2h(x) for x in exp)); meta.append(tag)
 
-    def mass(rng, kind):
-        if kind == 0:
-            return rng.loguniform(1e-6, 1e3)
-        if kind == 1:
-            return 0.0 if rng.chance(0.4) else rng.uniform(0.1, 2)
-        if kind == 2:
-            return rng.uniform(0.5, 1.5)
-        return rng.choice([1e-12, 1e-3, 1.0, 10.0])
+    F_FACTORS = dict(N=[1, 2, 3, 5, 13, 300], masses=["loguniform", "some-zero", "equalish", "discrete", "leading-massless", "all-massless"],
+                     offset=["0", "1", "100"], roles=["all", "tp0", "tp1"],
+                     var=["none", "1", "1+1", "1+2same", "1+1+2diff", "tp", "1+tp+2"], other=["sameN", "diffN", "mixedvar"],
+                     scal=["generic", "zero", "negative", "one"])
 
-    def make_sim(rng, nvar_cfg, bigN=None):
+    def f_excluded(f, a, g, b):
+        if f == "N" and a == 1 and g == "roles" and b != "all":
+            return "N_active < N needs N >= 2"
+        if f == "var" and a == "none" and g == "other" and b == "mixedvar":
+            return "variational particles on one side only needs variational particles"
+        return None
+    FG = pair_group("frame", F_FACTORS, f_excluded)
+
+    def mass(rng, fam):
+        if fam == "loguniform":
+            return rng.loguniform(1e-6, 1e3)
+        if fam == "some-zero":
+            return 0.0 if rng.chance(0.4) else rng.uniform(0.1, 2)
+        if fam == "all-massless":
+            return 0.0
+        if fam == "discrete":
+            return rng.choice([1e-12, 1e-3, 1.0, 10.0])
+        return rng.uniform(0.5, 1.5)
+
+    def make_sim(rng, spec):
         sim = rebound.Simulation()
-        N = bigN or rng.choice([1, 2, 2, 3, 3, 4, 5, 8, 13])
-        kind = rng.randint(0, 3)
-        off = rng.normal() * rng.choice([0, 1, 100])
+        N = spec["N"]
+        off = rng.normal() * float(spec["offset"]) if spec["offset"] != "100" else rng.choice([-1.0, 1.0]) * rng.uniform(50, 150)
         for i in range(N):
-            m = mass(rng, kind)
-            if i == 0 and rng.chance(0.15):
+            m = mass(rng, spec["masses"])
+            if i == 0 and spec["masses"] == "leading-massless":
                 m = 0.0           # leading massless particle: exercises the `m > 0` guard
             sim.add(m=m, x=off + rng.normal(), y=rng.normal(), z=off * 0.5 + rng.normal(),
                     vx=rng.normal(), vy=off + rng.normal(), vz=rng.normal())
-        if all(p.m == 0 for p in sim.particles) and rng.chance(0.7):
-            sim.particles[N - 1].m = 1.0
         # particle roles: the frame routines sum over all N_real particles whatever N_active / testparticle_type say
-        if N >= 2 and rng.chance(0.4):
+        if spec["roles"] != "all" and N >= 2:
             sim.N_active = rng.randint(1, N - 1)
-            sim.testparticle_type = rng.randint(0, 1)
+            sim.testparticle_type = 0 if spec["roles"] == "tp0" else 1
             dim("roles: N_active < N / test particles (frame ops)")
         if any(p.m == 0 for p in sim.particles):
             dim("roles: zero-mass and leading massless bodies (frame ops)")
@@ -934,15 +1127,14 @@ def frame(c, rebound, exe):
             dim("geometry: centre of mass far from the origin and moving")
         cfgs = []
         firsts = []
-        for v in range(nvar_cfg):
-            k = rng.randint(0, 3)
-            if k <= 1 or not firsts:
+        for tok in ([] if spec["var"] == "none" else spec["var"].split("+")):
+            if tok == "1":
                 var = sim.add_variation()
                 firsts.append(var)
                 cfgs.append(("1", var))
-            elif k == 2:
-                a = rng.choice(firsts)
-                b = rng.choice(firsts) if rng.chance(0.7) else None
+            elif tok in ("2", "2same", "2diff"):
+                a = firsts[0]
+                b = firsts[-1] if tok == "2diff" else None
                 var = sim.add_variation(order=2, first_order=a, first_order_2=b)
                 cfgs.append(("2", var))
             else:
@@ -965,16 +1157,26 @@ def frame(c, rebound, exe):
     hel_votes = {}
     hel_fd = 0
     hel_fd_bad = 0
-    for case in range(nsim):
+    farray = FG.array(rng)
+    c.cov["frame_covering_array_cases"] = len(farray)
+    for case in range(nsim + len(farray)):
         try:
             r = rng.fork()
-            nv = r.choice([0, 0, 1, 2, 3, 4])
-            bigN = None
-            if case == 1:
-                bigN = 300
-            if c.thorough and case in (2, 3):
-                bigN = 1100 if case == 2 else 3000
-            sim, N, cfgs = make_sim(r, nv if not bigN else (1 if bigN <= 300 else 0), bigN)
+            if case < len(farray):
+                spec = dict(farray[case])
+            else:
+                # random cases over the same factors (volume), small N preferred
+                for _t in range(50):
+                    spec = {k: r.choice(v) for k, v in F_FACTORS.items()}
+                    spec["N"] = r.choice([1, 2, 2, 3, 3, 5, 5, 13])
+                    if r.chance(0.5):
+                        spec["var"] = "none"
+                    if FG.valid(spec):
+                        break
+            if c.thorough and case in (len(farray) + 2, len(farray) + 3):
+                spec.update(N=1100 if case == len(farray) + 2 else 3000, var="none", other="sameN")
+            sim, N, cfgs = make_sim(r, spec)
+            bigN = N >= 300
             if bigN:
                 dim("scale: N >= 300 (frame ops)")
             for kd, _v in cfgs:
@@ -1077,7 +1279,11 @@ def frame(c, rebound, exe):
             c.count(("move_to_com", N, tuple(o for o, *_ in vc), case % 4), nontrivial=N >= 2)
             # ---------------- move_to_hel
             sim3 = sim.copy()
-            clib.reb_simulation_move_to_hel(ctypes.byref(sim3))
+            if case % 2:
+                clib.reb_simulation_move_to_hel(ctypes.byref(sim3))
+            else:
+                sim3.move_to_hel()
+            ep("reb_simulation_move_to_hel", "Simulation.move_to_hel", "reb_simulation_move_to_com", "reb_simulation_com")
             posth = snapshot(sim3)
             for ci, k in enumerate(COMPS6):
                 col = 1 + ci
@@ -1145,13 +1351,14 @@ def frame(c, rebound, exe):
             c.cov["move_to_hel_shadow_simulation_disagreements"] = hel_fd_bad
             c.count(("move_to_hel", N, case % 4), nontrivial=N >= 2)
             # ---------------- imul / iadd / isub on all N particles (real + variational)
-            other, _, _ = make_sim(r, 0) if r.chance(0.2) else (None, None, None)
             simb = sim.copy()
             for i in range(simb.N):
                 for k in COMPS6:
                     setattr(simb.particles[i], k, r.normal())
-            if other is not None and other.N != sim.N:
-                simb = other
+            if spec["other"] == "diffN":
+                simb = rebound.Simulation()
+                for i in range(sim.N + r.choice([-1, 1, 2]) if sim.N > 1 else sim.N + 1):
+                    simb.add(m=1.0, x=r.normal(), vy=r.normal())
             preb = snapshot(simb)
             sa = sim.copy()
             rc = clib.reb_simulation_iadd(ctypes.byref(sa), ctypes.byref(simb))
@@ -1184,6 +1391,11 @@ def frame(c, rebound, exe):
                 try:
                     sp = sim + simb
                     sm = sim - simb
+                    spi = sim.copy(); spi += simb
+                    smi = sim.copy(); smi -= simb
+                    ep("Simulation.__add__", "Simulation.__sub__", "Simulation.__iadd__", "Simulation.__isub__", "reb_simulation_iadd", "reb_simulation_isub")
+                    if snapshot(spi) != pa or snapshot(smi) != psub:
+                        fails.append(("py-add", "Simulation += / -= differ from iadd/isub", dict(N=sim.N)))
                     if snapshot(sp) != pa or snapshot(sm) != psub or snapshot(sim) != pre:
                         fails.append(("py-add", "Simulation.__add__/__sub__ differ from iadd/isub or modify the operand", dict(N=sim.N)))
                 except Exception as ex:
@@ -1194,7 +1406,7 @@ def frame(c, rebound, exe):
                     fails.append(("py-add", "Simulation + Simulation of different N did not raise", dict(N=sim.N, N2=simb.N)))
                 except RuntimeError:
                     pass
-            if sim.N_var > 0 and case % 5 == 0:
+            if sim.N_var > 0 and spec["other"] == "mixedvar":
                 # variational particles on one side only: same N, the other simulation all real.  reb_simulation_iadd only
                 # compares N, so real coordinates are silently added to variational ones (measured, not an error path)
                 allreal = rebound.Simulation()
@@ -1207,6 +1419,13 @@ def frame(c, rebound, exe):
                 if rcx == 0 and any(sx.particles[i].x != pre[i][1] + float(i) for i in range(sim.N)):
                     fails.append(("iadd-mixed", "iadd of an all-real simulation onto one with variational particles is not the component-wise sum", dict(N=sim.N, N_var=sim.N_var)))
             s1, s2 = r.normal() * 3, r.normal() * 3
+            if spec["scal"] == "zero":
+                s1, s2 = 0.0, r.normal()
+            elif spec["scal"] == "negative":
+                s1, s2 = -abs(s1) - 0.1, -abs(s2) - 0.1
+            elif spec["scal"] == "one":
+                s1, s2 = 1.0, 1.0
+            FG.register(spec)
             sm_ = sim.copy()
             clib.reb_simulation_imul(ctypes.byref(sm_), ctypes.c_double(s1), ctypes.c_double(s2))
             pm = snapshot(sm_)
@@ -1218,9 +1437,27 @@ def frame(c, rebound, exe):
                     fails.append(("imul", "imul is not the component-wise scaling on particle %d" % i, dict(i=i, N=sim.N, N_var=sim.N_var, s1=s1, s2=s2)))
                     break
             sq = sim * s1
-            sd = sim / s1
-            if snapshot(sq) != snapshot_scaled(pre, s1) or snapshot(sd) != snapshot_scaled(pre, 1. / s1):
-                fails.append(("py-mul", "Simulation * scalar or / scalar is not the scaling of all coordinates", dict(s=s1, N=sim.N)))
+            sr_ = s1 * sim
+            si_ = sim.copy(); si_ *= s1
+            sm2 = sim.copy(); sm2.multiply(s1, s2)
+            ep("Simulation.__mul__", "Simulation.__rmul__", "Simulation.__imul__", "Simulation.multiply", "reb_simulation_imul")
+            if not (snapshot(sq) == snapshot(sr_) == snapshot(si_) == snapshot_scaled(pre, s1)) or snapshot(sm2) != pm:
+                fails.append(("py-mul", "Simulation * scalar / scalar * Simulation / *= / multiply() is not the scaling of all coordinates", dict(s=s1, N=sim.N)))
+            if s1 == 0.0:
+                for nm_, fn_ in (("/", lambda: sim / s1), ("/=", lambda: sim.copy().__itruediv__(s1)), ("__div__", lambda: sim.__div__(s1)), ("__idiv__", lambda: sim.copy().__idiv__(s1))):
+                    try:
+                        fn_()
+                        fails.append(("py-div-zero", "Simulation %s 0 did not raise ZeroDivisionError" % nm_, dict(N=sim.N)))
+                    except ZeroDivisionError:
+                        pass
+            else:
+                sd = sim / s1
+                sd2 = sim.copy(); sd2 /= s1
+                sd3 = sim.__div__(s1)
+                sd4 = sim.copy().__idiv__(s1)
+                if not (snapshot(sd) == snapshot(sd2) == snapshot(sd3) == snapshot(sd4) == snapshot_scaled(pre, 1. / s1)):
+                    fails.append(("py-mul", "Simulation / scalar (/, /=, __div__, __idiv__) is not the scaling of all coordinates by 1/scalar", dict(s=s1, N=sim.N)))
+            ep("Simulation.__truediv__", "Simulation.__itruediv__", "Simulation.__div__", "Simulation.__idiv__")
             c.count(("imul/iadd/isub", sim.N, sim.N_var, case % 4))
             if case < 3:
                 c.sample({"N_real": N, "var_configs": vc, "masses": [pre[i][0] for i in range(N)], "x": [pre[i][1] for i in range(N)]})
@@ -1300,41 +1537,183 @@ def snapshot_scaled(pre, s):
 
 
 
+# ----------------------------------------------------------------------------- pairwise covering arrays
+class PairGroup:
+    """explicit factors with finite value sets; cases come from a greedy all-pairs covering array; every executed case is
+    registered, and coverage is accounted per pair of values of two different factors.  `excluded(f, a, g, b)` returns the
+    reason why the code rejects / cannot run that combination (listed in the evidence), else None."""
+
+    def __init__(self, name, factors, excluded):
+        self.name, self.factors, self.excl = name, factors, excluded
+        self.seen = set()
+        self.ncases = 0
+
+    def pair_ok(self, f, a, g, b):
+        return self.excl(f, a, g, b) is None and self.excl(g, b, f, a) is None
+
+    def valid(self, case):
+        ks = list(case)
+        return all(self.pair_ok(ks[i], case[ks[i]], ks[j], case[ks[j]]) for i in range(len(ks)) for j in range(i + 1, len(ks)))
+
+    def all_pairs(self):
+        ks = list(self.factors)
+        out, exc = [], []
+        for i in range(len(ks)):
+            for j in range(i + 1, len(ks)):
+                for a_ in self.factors[ks[i]]:
+                    for b_ in self.factors[ks[j]]:
+                        (out if self.pair_ok(ks[i], a_, ks[j], b_) else exc).append((ks[i], a_, ks[j], b_))
+        return out, exc
+
+    def array(self, rng, ncand=120):
+        """greedy: repeatedly pick, among random valid candidates, the case covering most uncovered pairs"""
+        need, _ = self.all_pairs()
+        need = set(need)
+        ks = list(self.factors)
+        cases = []
+        guard = 0
+        while need and guard < 2000:
+            guard += 1
+            best, bestc = None, -1
+            # seed half of the candidates with an uncovered pair so that progress is guaranteed
+            seeds = list(need)
+            for t_ in range(ncand):
+                cand = {k: rng.choice(self.factors[k]) for k in ks}
+                if t_ % 2 == 0:
+                    f_, a_, g_, b_ = seeds[rng.randint(0, len(seeds) - 1)]
+                    cand[f_], cand[g_] = a_, b_
+                if not self.valid(cand):
+                    continue
+                cnt = sum(1 for i in range(len(ks)) for j in range(i + 1, len(ks)) if (ks[i], cand[ks[i]], ks[j], cand[ks[j]]) in need)
+                if cnt > bestc:
+                    best, bestc = cand, cnt
+            if best is None or bestc <= 0:
+                continue
+            cases.append(best)
+            for i in range(len(ks)):
+                for j in range(i + 1, len(ks)):
+                    need.discard((ks[i], best[ks[i]], ks[j], best[ks[j]]))
+        return cases
+
+    def register(self, case):
+        ks = list(self.factors)
+        self.ncases += 1
+        for i in range(len(ks)):
+            for j in range(i + 1, len(ks)):
+                if ks[i] in case and ks[j] in case:
+                    self.seen.add((ks[i], case[ks[i]], ks[j], case[ks[j]]))
+
+    def summary(self):
+        need, exc = self.all_pairs()
+        missing = [p_ for p_ in need if p_ not in self.seen]
+        reasons = {}
+        for f_, a_, g_, b_ in exc:
+            r_ = self.excl(f_, a_, g_, b_) or self.excl(g_, b_, f_, a_)
+            reasons[r_] = reasons.get(r_, 0) + 1
+        return dict(covered=len(need) - len(missing), total=len(need), excluded=len(exc), cases=self.ncases,
+                    factors={k: len(v) for k, v in self.factors.items()}, excluded_because=reasons, missing=[list(m_) for m_ in missing[:12]])
+
+
+PAIR_GROUPS = {}
+
+
+def pair_group(name, factors, excluded):
+    if name not in PAIR_GROUPS:
+        PAIR_GROUPS[name] = PairGroup(name, factors, excluded)
+    return PAIR_GROUPS[name]
+
+
+ENTRY = set()        # public entry points exercised in this run
+
+
+def ep(*names):
+    for n_ in names:
+        ENTRY.add(n_)
+
+
 # ----------------------------------------------------------------------------- histories: a frame operation in the middle of a run
+H_INTEG = ["ias15", "whfast/1", "whfast/0", "leapfrog", "mercurius/1", "mercurius/0", "trace", "janus", "saba/1", "saba/0", "eos/1", "eos/0", "bs"]
+H_VAR_OK = {"ias15": ("1", "1+2", "megno"), "whfast/1": ("1", "megno"), "whfast/0": ("1", "megno"), "leapfrog": ("1", "1+2"),
+            "janus": ("1", "1+2"), "eos/1": ("1", "1+2", "megno"), "eos/0": ("1", "1+2", "megno"), "bs": ("1", "1+2")}
+
+
+def h_excluded(f, a, g, b):
+    if f == "integ" and g == "var" and b != "none" and b not in H_VAR_OK.get(a, ()):
+        return "the integrator rejects (or aborts on, or silently ignores) this kind of variational particles"
+    if f == "integ" and g == "roles" and a == "janus" and b == "testparticle":
+        return "JANUS has no notion of test particles (N_active is not supported)"
+    return None
+
+
 def histories(c, rebound):
     """rotation and the move to the centre-of-mass frame are symmetries of the dynamics: applying them in the middle of a run
     and continuing must give the same as continuing and applying them at the end — for every integrator, also with
     unsynchronised internal coordinates (safe_mode = 0) when the documented protocol is followed (synchronize, operate on the
-    particles, ask the integrator to recalculate its internal coordinates), with dt < 0, and through a save / restore."""
+    particles, ask the integrator to recalculate its internal coordinates).  Cases: pairwise covering array over
+    integrator x operation (incl. two operations in a row) x dt sign x restore path x variational kind x roles x
+    centre of mass x timing of the operation (before the first step / after plain steps / right after a shortened last step)."""
     rng = c.rng.fork()
     fails = []
     worst = {}
     tmpd = tempfile.mkdtemp(prefix="c20h.", dir=os.environ.get("VERIF_TMP", "/tmp"))
-    configs = [("ias15", None), ("whfast", 1), ("whfast", 0), ("leapfrog", None), ("mercurius", 1), ("mercurius", 0), ("trace", None),
-               ("janus", None), ("saba", 1), ("saba", 0), ("eos", 1), ("eos", 0), ("bs", None)]
-    label = {("ias15", None): "ias15", ("whfast", 1): "whfast safe_mode=1", ("whfast", 0): "whfast safe_mode=0 + recalculate flag",
-             ("leapfrog", None): "leapfrog", ("mercurius", 1): "mercurius", ("mercurius", 0): "mercurius safe_mode=0", ("trace", None): "trace",
-             ("janus", None): "janus + recalculate flag", ("saba", 1): "saba safe_mode=1", ("saba", 0): "saba safe_mode=0 + recalculate flag",
-             ("eos", 1): "eos", ("eos", 0): "eos safe_mode=0", ("bs", None): "bs"}
-    reps = 3 if c.thorough else 1
+    G = pair_group("history", dict(integ=H_INTEG, op=["rotate", "com", "rotate+com", "com+rotate"], sign=[1, -1],
+                                   restore=["none", "archive", "copy", "pickle"], var=["none", "1", "1+2", "megno"],
+                                   roles=["massive", "testparticle"], com=["origin", "far-moving"],
+                                   timing=["t0", "after-steps", "after-exact-finish"]), h_excluded)
+    cases = G.array(rng)
+    if c.thorough:
+        # 3-way for the factors closest to the mechanism: integrator x operation x timing, the rest random
+        for ig in H_INTEG:
+            for op in G.factors["op"]:
+                for tm in G.factors["timing"]:
+                    for _try in range(20):
+                        cand = {k: rng.choice(v) for k, v in G.factors.items()}
+                        cand.update(integ=ig, op=op, timing=tm)
+                        if G.valid(cand):
+                            cases.append(cand)
+                            break
+    else:
+        # quick: a seed-rotated slice (every pair is covered within 3 seeds), never less than a third of the array
+        k3 = c.seed % 3
+        full_ = cases
+        cases = [cs for i, cs in enumerate(full_) if i % 3 == k3 or i % 3 == (k3 + 1) % 3]
+        for ig in H_INTEG:                      # every integrator configuration in every run
+            if not any(cs["integ"] == ig for cs in cases):
+                cases.append(next(cs for cs in full_ if cs["integ"] == ig))
+    import pickle
 
-    def mk(integ, safe, dt, seedvals):
+    def mk(cs, sv):
+        integ = cs["integ"].split("/")[0]
+        safe = int(cs["integ"].split("/")[1]) if "/" in cs["integ"] else None
         sm = rebound.Simulation()
-        e1, i1, f1, e2, f2, off, vof = seedvals
+        e1, i1, f1, e2, f2, off, vof = sv
         sm.add(m=1.0)
         sm.add(m=1e-3, a=1.0, e=e1, inc=i1, Omega=1.0, omega=2.0, f=f1)
         sm.add(m=3e-4, a=2.1, e=e2, inc=0.1, f=f2)
-        sm.add(m=0.0, a=3.3, e=0.1, f=f1 + 1)                # a test particle
-        sm.N_active = 3
-        for pp in sm.particles:                               # centre of mass away from the origin and moving
-            pp.x += off; pp.vy += vof
+        if cs["roles"] == "testparticle":
+            sm.add(m=0.0, a=3.3, e=0.1, f=f1 + 1)
+            sm.N_active = 3
+        if cs["com"] == "far-moving":
+            for pp in sm.particles:
+                pp.x += off; pp.vy += vof
         sm.integrator = integ
-        sm.dt = dt
+        sm.dt = cs["sign"] * 0.01
         if safe is not None:
             getattr(sm, "ri_" + integ).safe_mode = safe
         if integ == "janus":
             sm.ri_janus.scale_pos = 1e-12; sm.ri_janus.scale_vel = 1e-12
-            sm.N_active = sm.N
+        nreal = sm.N
+        vr = SplitMix(int(abs(f1) * 1e6) + 17)
+        if cs["var"] in ("1", "1+2"):
+            va = sm.add_variation()
+            if cs["var"] == "1+2":
+                sm.add_variation(order=2, first_order=va)
+            for k in range(nreal, sm.N):
+                pv = sm.particles[k]
+                for f_ in COMPS6:
+                    setattr(pv, f_, vr.normal())
+        if cs["var"] == "megno":
+            sm.init_megno(seed=1 + int(abs(f2) * 1e6))
         return sm
 
     def recalc(sm, integ):
@@ -1342,6 +1721,15 @@ def histories(c, rebound):
             sm.ri_whfast.recalculate_coordinates_this_timestep = 1
         if integ == "janus":
             sm.ri_janus.recalculate_integer_coordinates_this_timestep = 1
+        if integ == "mercurius":
+            sm.ri_mercurius.recalculate_coordinates_this_timestep = 1
+
+    def apply(sm, op, q):
+        for o_ in op.split("+"):
+            if o_ == "rotate":
+                sm.rotate(q); ep("Simulation.rotate", "reb_simulation_irotate")
+            else:
+                sm.move_to_com(); ep("Simulation.move_to_com", "reb_simulation_move_to_com")
 
     def diff(a, b):
         e = 0.0
@@ -1350,61 +1738,82 @@ def histories(c, rebound):
                 e = max(e, abs(getattr(pa_, f_) - getattr(pb_, f_)))
         return e
 
-    for rep in range(reps):
-        for (integ, safe) in configs:
-            for op in ("rotate", "com"):
-                try:
-                    sv = (rng.uniform(0, 0.3), rng.uniform(0, 0.5), rng.uniform(0, 6), rng.uniform(0, 0.2), rng.uniform(0, 6), rng.uniform(-3, 3), rng.uniform(-1, 1))
-                    sign = -1.0 if (rep + len(integ) + (op == "com")) % 3 == 0 else 1.0
-                    dt = sign * 0.01
-                    qv = [rng.normal() for _ in range(4)]
-                    nn = math.sqrt(sum(x * x for x in qv)); qv = [x / nn for x in qv]
-                    q = rebound.Rotation(ix=qv[0], iy=qv[1], iz=qv[2], r=qv[3])
-                    a, b = mk(integ, safe, dt, sv), mk(integ, safe, dt, sv)
-                    eft = 1 if integ in ("ias15", "bs") else 0
-                    a.integrate(sign * 0.5, exact_finish_time=eft); b.integrate(sign * 0.5, exact_finish_time=eft)
-                    a.synchronize()
-                    if op == "rotate":
-                        a.rotate(q)
-                    else:
-                        a.move_to_com()
-                    recalc(a, integ)
-                    through_restore = (rep + len(integ)) % 2 == 0
-                    if through_restore:
-                        fn = os.path.join(tmpd, "h.bin")
-                        a.save_to_file(fn, delete_file=True)
-                        a = rebound.Simulation(fn)
-                        dim("history: frame op, save/restore, continue")
-                    a.integrate(sign * 1.0, exact_finish_time=eft); b.integrate(sign * 1.0, exact_finish_time=eft)
-                    a.synchronize(); b.synchronize()
-                    if op == "rotate":
-                        b.rotate(q)
-                    else:
-                        b.move_to_com()
-                    e = diff(a, b)
-                    tol = 1e-8 if integ == "janus" else (1e-7 if integ in ("bs", "ias15") else 1e-10)     # adaptive schemes: their own error tolerance
-                    worst["%s/%s" % (integ if safe is None else "%s safe_mode=%d" % (integ, safe), op)] = max(worst.get("%s/%s" % (integ if safe is None else "%s safe_mode=%d" % (integ, safe), op), 0.0), e)
-                    dim("history: op then continue, integrator " + label[(integ, safe)])
-                    if sign < 0:
-                        dim("time: dt < 0 after a frame op")
-                    c.count(("history", integ, safe, op, sign))
-                    if not (e <= tol and a.t == b.t):
-                        fails.append(("history:%s-%s" % (op, integ), "%s in the middle of a %s run (safe_mode=%r, dt=%g%s) then continuing differs from continuing and applying it at the end by %.3g"
-                                      % ("Simulation.rotate" if op == "rotate" else "move_to_com", integ, safe, dt, ", through save/restore" if through_restore else "", e),
-                                      dict(integrator=integ, safe_mode=safe, op=op, dt=dt, q=qv, system=sv, restore=through_restore, err=e)))
-                    # for the record: what happens WITHOUT the documented recalculate request under safe_mode=0 (user responsibility)
-                    if safe == 0 and integ in ("whfast", "saba") and rep == 0:
-                        a2, b2 = mk(integ, safe, dt, sv), mk(integ, safe, dt, sv)
-                        a2.integrate(sign * 0.5, exact_finish_time=0); b2.integrate(sign * 0.5, exact_finish_time=0)
-                        a2.synchronize()
-                        a2.rotate(q) if op == "rotate" else a2.move_to_com()
-                        a2.integrate(sign * 1.0, exact_finish_time=0); b2.integrate(sign * 1.0, exact_finish_time=0)
-                        a2.synchronize(); b2.synchronize()
-                        b2.rotate(q) if op == "rotate" else b2.move_to_com()
-                        c.cov.setdefault("safe_mode_0_without_recalculate_flag_error(documented_user_responsibility)", {})["%s/%s" % (integ, op)] = float("%.3g" % diff(a2, b2))
-                except (ValueError, OverflowError, ZeroDivisionError) as ex:
-                    fails.append(("nonfinite:history", "non-finite value in the history test (%r)" % (ex,), dict(integrator=integ, op=op)))
+    for cs in cases:
+        try:
+            integ = cs["integ"].split("/")[0]
+            safe = int(cs["integ"].split("/")[1]) if "/" in cs["integ"] else None
+            sv = (rng.uniform(0, 0.3), rng.uniform(0, 0.5), rng.uniform(0, 6), rng.uniform(0, 0.2), rng.uniform(0, 6), rng.uniform(-3, 3), rng.uniform(-1, 1))
+            sign = cs["sign"]
+            qv = [rng.normal() for _ in range(4)]
+            nn = math.sqrt(sum(x * x for x in qv)); qv = [x / nn for x in qv]
+            q = rebound.Rotation(ix=qv[0], iy=qv[1], iz=qv[2], r=qv[3])
+            a, b = mk(cs, sv), mk(cs, sv)
+            adaptive = integ in ("ias15", "bs")
+            # first leg
+            if cs["timing"] == "after-steps":
+                a.integrate(sign * 0.5, exact_finish_time=1 if adaptive else 0); b.integrate(sign * 0.5, exact_finish_time=1 if adaptive else 0)
+            elif cs["timing"] == "after-exact-finish":
+                # the last step was shortened: dt differs from dt_last_done, integrators with deferred synchronisation have just synchronised
+                a.integrate(sign * 0.5037, exact_finish_time=1); b.integrate(sign * 0.5037, exact_finish_time=1)
+                if not adaptive:
+                    a.dt = sign * 0.01; b.dt = sign * 0.01
+            a.synchronize()
+            apply(a, cs["op"], q)
+            recalc(a, integ)
+            if cs["restore"] == "archive":
+                fn = os.path.join(tmpd, "h.bin")
+                a.save_to_file(fn, delete_file=True)
+                a = rebound.Simulation(fn)
+            elif cs["restore"] == "copy":
+                a = a.copy()
+            elif cs["restore"] == "pickle":
+                a = pickle.loads(pickle.dumps(a))
+            T2_ = sign * 1.2
+            a.integrate(T2_, exact_finish_time=1 if adaptive else 0); b.integrate(T2_, exact_finish_time=1 if adaptive else 0)
+            a.synchronize(); b.synchronize()
+            apply(b, cs["op"], q)
+            e = diff(a, b)
+            if cs["var"] == "megno" and cs["op"] == "rotate":
+                # MEGNO is a functional of the history of the tangent vector's norm: invariant under rotations; a shift of the
+                # tangent vector by the variation of the centre of mass (move_to_com) legitimately changes it
+                e = max(e, abs(a.megno() - b.megno()) / max(1.0, abs(b.megno())))
+            tol = 1e-7 if (integ in ("janus", "bs", "ias15")) else 1e-10
+            if cs["var"] != "none":
+                tol *= 100
+            key_ = cs["integ"] + "/" + cs["op"]
+            worst[key_] = max(worst.get(key_, 0.0), e)
+            G.register(cs)
+            lab = {"whfast/0": "whfast safe_mode=0 + recalculate flag", "whfast/1": "whfast safe_mode=1", "saba/0": "saba safe_mode=0 + recalculate flag",
+                   "saba/1": "saba safe_mode=1", "janus": "janus + recalculate flag", "mercurius/1": "mercurius", "mercurius/0": "mercurius safe_mode=0",
+                   "eos/1": "eos", "eos/0": "eos safe_mode=0"}.get(cs["integ"], cs["integ"])
+            dim("history: op then continue, integrator " + lab)
+            if sign < 0:
+                dim("time: dt < 0 after a frame op")
+            if cs["restore"] != "none":
+                dim("history: frame op, save/restore, continue")
+            c.count(("history", cs["integ"], cs["op"], cs["timing"], cs["var"]))
+            if not (e <= tol and a.t == b.t):
+                fails.append(("history:%s-%s" % (cs["op"], integ), "%s in the middle of a %s run (%s) then continuing differs from continuing and applying it at the end by %.3g"
+                              % (cs["op"], integ, ", ".join("%s=%s" % kv for kv in sorted(cs.items())), e),
+                              dict(case=cs, q=qv, system=sv, err=e, t=(a.t, b.t))))
+        except (ValueError, OverflowError, ZeroDivisionError) as ex:
+            fails.append(("nonfinite:history", "non-finite value in the history test (%r)" % (ex,), dict(case=cs)))
+    # for the record: what happens WITHOUT the documented recalculate request under safe_mode=0 (user responsibility)
+    for ig in ("whfast/0", "saba/0"):
+        for op in ("rotate", "com"):
+            cs = dict(integ=ig, op=op, sign=1, restore="none", var="none", roles="massive", com="far-moving", timing="after-steps")
+            sv = (0.1, 0.2, 1.0, 0.1, 2.0, 1.5, 0.3)
+            q = rebound.Rotation(angle=0.7, axis=[1, 2, 3])
+            a2, b2 = mk(cs, sv), mk(cs, sv)
+            a2.integrate(0.5, exact_finish_time=0); b2.integrate(0.5, exact_finish_time=0)
+            a2.synchronize()
+            apply(a2, op, q)
+            a2.integrate(1.0, exact_finish_time=0); b2.integrate(1.0, exact_finish_time=0)
+            a2.synchronize(); b2.synchronize()
+            apply(b2, op, q)
+            c.cov.setdefault("safe_mode_0_without_recalculate_flag_error(documented_user_responsibility)", {})["%s/%s" % (ig, op)] = float("%.3g" % diff(a2, b2))
     shutil.rmtree(tmpd, ignore_errors=True)
+    c.cov["history_cases"] = len(cases)
     c.cov["history_worst_errors_measured"] = {k: float("%.3g" % v) for k, v in sorted(worst.items())}
     seen = set()
     for key, what, rep_ in fails:
@@ -1617,15 +2026,29 @@ def units(c, rebound, exe, parsed, ref):
     dims = {"m": (0, 0, 1), "x": (1, 0, 0), "y": (1, 0, 0), "z": (1, 0, 0), "r": (1, 0, 0),
             "vx": (1, -1, 0), "vy": (1, -1, 0), "vz": (1, -1, 0), "ax": (1, -2, 0), "ay": (1, -2, 0), "az": (1, -2, 0)}
     ntarget = 5 if c.thorough else 1
+    UG = pair_group("units", dict(length=list(Ls), time=list(Ts), mass=list(Ms), add=["cartesian", "elements"], var=["none", "1st"],
+                                  nactive=["default", "set"], restore=["none", "archive", "copy", "pickle"],
+                                  target=["different", "alias", "same"], spelling=["tuple", "upper", "dict"]),
+                    lambda f, a, g, b: None)
+    small = PairGroup("units-small", {k: v for k, v in UG.factors.items() if k not in ("length", "time", "mass")}, lambda f, a, g, b: None).array(rng)
+    while len(small) % 17 == 0 or len(small) % 2 == 0 and len(small) < 9:
+        small.append(dict(small[0]))          # the row index cycles with the triple index: keep the cycle length coprime to the table sizes
+    alias_of = {}
+    for g_ in ref["alias_groups"]:
+        for u_ in g_:
+            alias_of[u_] = [v_ for v_ in g_ if v_ != u_ and (v_ in Ls or v_ in Ts or v_ in Ms)]
+    import pickle
     for idx, (l, t, m) in enumerate(triples):
         try:
+            U_ = dict(small[idx % len(small)])
             sim = rebound.Simulation()
             spell = [l, t, m]
             rng.shuffle(spell)
-            if idx % 3 == 0:
+            if U_["spelling"] == "upper":
                 spell = [s_.upper() if rng.chance(0.5) else s_.capitalize() for s_ in spell]
             try:
-                sim.units = tuple(spell)
+                sim.units = tuple(spell) if U_["spelling"] != "dict" else {"x": spell[0], "y": spell[1], "z": spell[2]}
+                ep("Simulation.units.setter", "units.check_units", "Simulation.update_units", "units.convert_G", "reb_hash")
             except Exception as ex:
                 fails.append(("units-setter", "sim.units = %r raised %r" % (spell, ex), dict(units=spell)))
                 continue
@@ -1661,14 +2084,14 @@ def units(c, rebound, exe, parsed, ref):
             q0 = to_units(exactL[l], exactT[t], exactM[m])
             v_SI = math.sqrt(float(Gq) * float(m1_SI + m2_SI) / float(a_SI))
             sim.add(m=q0["m1"], r=float(Fr("7e8") / exactL[l]), hash="primary")
-            if idx % 2 == 1:
+            if U_["add"] == "elements":
                 # the companion given by orbital elements: a in the length unit, uses sim.G of this unit system
                 sim.add(m=q0["m2"], a=q0["a"], e=0.3, inc=0.4, Omega=1.0, omega=2.0, f=0.7, r=float(Fr("7e7") / exactL[l]), hash="companion")
                 dim("units: particles added by orbital elements")
             else:
                 sim.add(m=q0["m2"], x=q0["a"], vy=float(Fr(v_SI) * exactT[t] / exactL[l]), r=float(Fr("7e7") / exactL[l]), hash="companion")
             hashes0 = [pp.hash.value for pp in sim.particles]
-            if idx % 3 == 0:
+            if U_["nactive"] == "set":
                 sim.N_active = 1
             sim.t = 5.0; sim.dt = 0.25
             sim.particles[1].ax = float(Fr("-5.9e-3") * exactT[t] ** 2 / exactL[l])   # some acceleration to convert
@@ -1677,28 +2100,7 @@ def units(c, rebound, exe, parsed, ref):
             note("period_SI_invariance", e)
             if not e <= 1e-12:
                 fails.append(("units-period", "orbital period in seconds depends on the unit system %r: %.17g vs %.17g" % ((l, t, m), P1, Pw), dict(units=(l, t, m), P=P1, want=Pw)))
-            if idx % 60 == 7:
-                # units are persisted (python_unit_* hashes, cf. finding F12 on their field order) through every restore path,
-                # and a restored simulation converts exactly like the original
-                tmpf = os.path.join(os.environ.get("VERIF_TMP", "/tmp"), "c20u.%d.bin" % os.getpid())
-                sim.save_to_file(tmpf, delete_file=True)
-                import pickle
-                for nm_, s_r in (("archive", rebound.Simulation(tmpf)), ("copy", sim.copy()), ("pickle", pickle.loads(pickle.dumps(sim)))):
-                    l2_, t2_, m2_ = triples[perm[(idx + 13) % len(triples)]]
-                    s_o = sim.copy() if nm_ != "copy" else None
-                    okr = s_r.units == {"length": l, "time": t, "mass": m} and d2h(s_r.G) == d2h(sim.G)
-                    s_r.convert_particle_units(l2_, t2_, m2_)
-                    ref_ = sim.copy(); ref_.convert_particle_units(l2_, t2_, m2_)
-                    okr = okr and all(d2h(getattr(pa_, f_)) == d2h(getattr(pb_, f_)) for pa_, pb_ in zip(s_r.particles, ref_.particles) for f_ in fields) \
-                        and d2h(s_r.G) == d2h(ref_.G) and s_r.units == ref_.units
-                    dim("units: persisted through archive / copy / pickle")
-                    if not okr:
-                        fails.append(("units-restore:" + nm_, "units %r are not restored by %s (or the restored simulation converts differently)" % ((l, t, m), nm_), dict(units=(l, t, m), path=nm_, got=s_r.units)))
-                try:
-                    os.remove(tmpf)
-                except OSError:
-                    pass
-            if idx % 4 == 0:
+            if U_["var"] == "1st":
                 # variational particles are converted like the real ones (convert_particle_units loops over all N):
                 # a variation of a position / velocity / mass scales like a position / velocity / mass
                 sim.add_variation()
@@ -1709,11 +2111,47 @@ def units(c, rebound, exe, parsed, ref):
                         setattr(pv, f_, rng.normal())
                 c.count(("convert-with-variations", idx % 40))
                 dim("variational: convert_particle_units")
+            # target of the conversion: another triple, an alias spelling of the same units, or the same units
+            if U_["target"] == "same":
+                tgt0 = (l, t, m)
+            elif U_["target"] == "alias":
+                tgt0 = tuple((alias_of.get(u_) or [u_])[0] for u_ in (l, t, m))
+            else:
+                tgt0 = triples[perm[idx % len(triples)]]
+            if U_["restore"] != "none":
+                # units are persisted (python_unit_* hashes, cf. finding F12 on their field order) through every restore path,
+                # and a restored simulation converts exactly like the original
+                if U_["restore"] == "archive":
+                    tmpf = os.path.join(os.environ.get("VERIF_TMP", "/tmp"), "c20u.%d.bin" % os.getpid())
+                    sim.save_to_file(tmpf, delete_file=True)
+                    s_r = rebound.Simulation(tmpf)
+                    try:
+                        os.remove(tmpf)
+                    except OSError:
+                        pass
+                elif U_["restore"] == "copy":
+                    s_r = sim.copy()
+                else:
+                    s_r = pickle.loads(pickle.dumps(sim))
+                okr = s_r.units == {"length": l, "time": t, "mass": m} and d2h(s_r.G) == d2h(sim.G) and s_r.N == sim.N and s_r.N_var == sim.N_var
+                okr = okr and s_r.equal_units(sim)
+                ep("Simulation.equal_units")
+                s_r.convert_particle_units(*tgt0)
+                ref_ = sim.copy(); ref_.convert_particle_units(*tgt0)
+                okr = okr and all(d2h(getattr(pa_, f_)) == d2h(getattr(pb_, f_)) for pa_, pb_ in zip(s_r.particles, ref_.particles) for f_ in fields) \
+                    and d2h(s_r.G) == d2h(ref_.G) and s_r.units == ref_.units
+                dim("units: persisted through archive / copy / pickle")
+                if not okr:
+                    fails.append(("units-restore:" + U_["restore"], "units %r are not restored by %s (or the restored simulation converts differently)" % ((l, t, m), U_["restore"]),
+                                  dict(units=(l, t, m), path=U_["restore"], got=s_r.units, case=U_)))
+            UG.register(dict(U_, length=l, time=t, mass=m))
             before = [[getattr(p, f) for f in fields] for p in sim.particles]
             for kk in range(ntarget):
-                l2, t2, m2 = triples[perm[(idx + kk * 577) % len(triples)]]
+                l2, t2, m2 = triples[perm[(idx + kk * 577) % len(triples)]] if kk > 0 else tgt0
                 try:
                     sim.convert_particle_units(l2, t2, m2)
+                    ep("Simulation.convert_particle_units", "units.units_convert_particle", "units.hash_to_unit", "units.convert_mass",
+                       "units.convert_length", "units.convert_vel", "units.convert_acc", "Simulation.units")
                 except Exception as ex:
                     fails.append(("units-convert", "convert_particle_units(%r) raised %r" % ((l2, t2, m2), ex), dict(frm=(l, t, m), to=(l2, t2, m2))))
                     break
@@ -1721,7 +2159,7 @@ def units(c, rebound, exe, parsed, ref):
                 mid = [[getattr(p, f) for f in fields] for p in sim.particles]
                 if kk == 0:
                     dim("units: hash / N_active / t / dt untouched by conversion")
-                    if [pp.hash.value for pp in sim.particles][:2] != hashes0[:2] or sim.N_active != (1 if idx % 3 == 0 else -1):
+                    if [pp.hash.value for pp in sim.particles][:2] != hashes0[:2] or sim.N_active != (1 if U_["nactive"] == "set" else -1):
                         fails.append(("units-convert-identity", "convert_particle_units changed particle hashes or N_active", dict(frm=(l, t, m), to=(l2, t2, m2))))
                     # t and dt are NOT converted although the time unit changes (only particles and G are, as the docstring says): recorded
                     c.cov["convert_particle_units_leaves_t_and_dt_unconverted"] = bool(sim.t == 5.0 and sim.dt == 0.25)
@@ -1848,6 +2286,27 @@ def run(c):
     frame(c, rebound, exe)
     units(c, rebound, exe, parsed, ref)
     histories(c, rebound)
+    # ---- pairwise coverage of the generator factors
+    groups = {n_: g_.summary() for n_, g_ in PAIR_GROUPS.items()}
+    c.cov["pairs"] = {"covered": sum(g_["covered"] for g_ in groups.values()), "total": sum(g_["total"] for g_ in groups.values()),
+                      "excluded": sum(g_["excluded"] for g_ in groups.values()), "groups": groups}
+    for n_, g_ in groups.items():
+        if c.thorough and g_["covered"] < g_["total"]:
+            c.broken.append("pairwise coverage incomplete in factor group %s: %d of %d pairs, e.g. %r" % (n_, g_["covered"], g_["total"], g_["missing"][:3]))
+        if g_["cases"] == 0:
+            c.broken.append("factor group %s generated no case" % n_)
+    # ---- public entry points (extracted from src/rebound.h and the Python classes): each exercised in this run
+    try:
+        eps_ = extract_c20.entry_points(REPO)
+    except Exception as ex:
+        raise Infra("entry point extraction failed: %r" % (ex,))
+    done_ = {e_.split("(")[0].replace(".setter", "") for e_ in ENTRY}
+    missing_ = [e_ for e_ in eps_ if e_ not in done_]
+    c.cov["entry_points"] = {"extracted": len(eps_), "exercised": len(eps_) - len(missing_), "missing": missing_}
+    if len(eps_) < 60:
+        c.broken.append("entry-point extraction found only %d public functions/methods (expected about 70)" % len(eps_))
+    if missing_:
+        c.broken.append("public entry points not exercised in this run: " + ", ".join(missing_))
     c.cov["dimensions"] = dict(sorted(DIMS.items()))
     for name in REQUIRED_DIMS:
         if DIMS.get(name, 0) == 0:
